@@ -4,4 +4,5 @@ CONSTANTS
   CIDS = {"c1"}
   MaxOps = 3
   MaxOut = 1
+  HandoffOrdered = TRUE
 INVARIANTS E2EInv AllocInv ErrorKept
